@@ -347,6 +347,13 @@ class PipeConn:
     def marks(self) -> tuple[int, int]:
         return len(self.c2s), len(self.s2c)
 
+    def drop(self) -> None:
+        for f in (self.ct.writer, self.ct.reader):
+            try:
+                f.close()
+            except Exception:  # noqa: BLE001
+                pass
+
     def describe(self):
         from vgi_rpc.introspect import introspect
 
@@ -412,6 +419,9 @@ class HttpConn:
     def marks(self) -> int:
         return len(self.client.log)
 
+    def drop(self) -> None:
+        """Stateless HTTP: a client that vanishes just stops sending requests."""
+
     def describe(self):
         from vgi_rpc.http import http_introspect
 
@@ -442,6 +452,7 @@ def run_script(conn, script: list, xs: list[int], rows_of=None) -> dict:
     marks: list = [conn.marks()]
     px = conn.px
     http = conn.http
+    dropped = False
     for call, x in zip(script, xs):
         m = TABLE[call["m"]]
         arg = str(x) if m["badp"] else x
@@ -521,6 +532,15 @@ def run_script(conn, script: list, xs: list[int], rows_of=None) -> dict:
                     hist.append(["cancel", "ok"])
                     obsd.append("cancelled")
                     ended = True
+                elif op == "d":
+                    # the client vanishes: no close(), no cancel(); on a socket both ends of its transport close
+                    conn.drop()
+                    hist.append(["drop", "ok"])
+                    obsd.append("dropped")
+                    dropped = True
+                    break
+            if dropped:
+                break
             if not ended:
                 sess.close()
                 hist.append(["close", "ok"])
@@ -535,7 +555,7 @@ def run_script(conn, script: list, xs: list[int], rows_of=None) -> dict:
             obsd.append(_err_entry("client", e))
         finally:
             marks.append(conn.marks())
-    return {"hist": hist, "obsd": obsd, "marks": marks}
+    return {"hist": hist, "obsd": obsd, "marks": marks, "dropped": dropped}
 
 
 def with_watchdog(fn, timeout: float):
